@@ -368,20 +368,38 @@ func (mw *msgWriter) addFiles(files []*File, isAttachment bool) {
 				file.setHeader(HeaderContentID, fmt.Sprintf("<%s>", sanitizeFilename(file.Name)))
 			}
 		}
+		// A Content-ID set by the caller is stored as it is. Control characters (like line breaks) are
+		// not allowed in it and would inject header fields, they are not written.
+		header := make(map[string][]string, len(file.Header))
+		for key, values := range file.Header {
+			if strings.EqualFold(key, HeaderContentID.String()) {
+				cleaned := make([]string, 0, len(values))
+				for _, value := range values {
+					cleaned = append(cleaned, strings.Map(func(r rune) rune {
+						if r < 32 || r == 127 {
+							return -1
+						}
+						return r
+					}, value))
+				}
+				values = cleaned
+			}
+			header[key] = values
+		}
 		if mw.depth == 0 {
 			// write the header fields in a stable order, map iteration order is random
-			headers := make([]string, 0, len(file.Header))
-			for header := range file.Header {
-				headers = append(headers, header)
+			keys := make([]string, 0, len(header))
+			for key := range header {
+				keys = append(keys, key)
 			}
-			sort.Strings(headers)
-			for _, header := range headers {
-				mw.writeHeader(Header(header), file.Header[header]...)
+			sort.Strings(keys)
+			for _, key := range keys {
+				mw.writeHeader(Header(key), header[key]...)
 			}
 			mw.writeString(SingleNewLine)
 		}
 		if mw.depth > 0 {
-			mw.newPart(file.Header)
+			mw.newPart(header)
 		}
 
 		if mw.err == nil {
@@ -433,7 +451,7 @@ func (mw *msgWriter) writePart(part *Part, charset Charset) {
 	if mw.depth > 0 {
 		mimeHeader := textproto.MIMEHeader{}
 		if part.description != "" {
-			mimeHeader.Add(string(HeaderContentDescription), part.description)
+			mimeHeader.Add(string(HeaderContentDescription), mw.encoder.Encode(mw.charset.String(), part.description))
 		}
 		mimeHeader.Add(string(HeaderContentTransferEnc), contentTransferEnc)
 		mimeHeader.Add(string(HeaderContentType), contentType)
